@@ -7,8 +7,9 @@ TR = ['C17_Refused', 'C17_RefusedFirst', 'C17_RefusedOutput', 'C17_AsIfNeverSent
 
 def run(tier):
     f = vise.Family(PID, tier, MC, TR, ['nav', 'ends', 'scope', 'first'], modes=('L', 'P'), matcher=vise.known_matcher(PID))
-    f.pairs_env = {'VERIF_KEPT_INSERT': '1'}     # histories with refused inputs also through a kept flushing persister
-    f.out.assumptions = ['input classes are computed by the harness from the documented pattern ^\\+?[a-zA-Z0-9].*$ and the 255-byte limit, independently of vm.ValidInput',
+    f.pairs_env = {'VERIF_KEPT_INSERT': '1', 'VERIF_VALID': '1'}     # histories with refused inputs also through a kept flushing persister
+    f.random_env = {'VERIF_VALID': '1'}           # a third of the generated applications accept one more input format (engine.AddValidInput)
+    f.out.assumptions = ['input classes are computed by the harness from the documented pattern ^\\+?[a-zA-Z0-9].*$ and the 255-byte limit, independently of vm.ValidInput; applications with an extra format (engine.AddValidInput) accept ^#[0-9]+$ as well - for every engine of the process from the first registration on, as the library\'s package-level registry has it',
                          'paired runs use the same external-result schedule (indexed by accepted request and call number)']
     t = f.thorough
     f.out.stage('known-finding canonical case'); kept_case(f)
